@@ -153,6 +153,20 @@ Section Axis.
       destruct (Nat.max_dec y (fold_right Nat.max 0 (z :: l))) as [E|E]; rewrite E; [left; auto | right; auto].
   Qed.
 
+  Lemma In_combine_seq : forall (l : list (nat * nat)) a0 j r,
+    In (j, r) (combine (seq a0 (length l)) l) <-> a0 <= j < a0 + length l /\ nth (j - a0) l (0,0) = r.
+  Proof.
+    induction l as [|x l IH]; intros a0 j r; simpl.
+    - split; [tauto | lia].
+    - rewrite IH. split.
+      + intros [E|[H1 H2]].
+        * inversion E; subst. rewrite Nat.sub_diag. split; [lia | reflexivity].
+        * split; [lia|]. replace (j - a0) with (S (j - S a0)) by lia. exact H2.
+      + intros [H1 H2]. destruct (Nat.eq_dec j a0) as [->|Hne].
+        * left. rewrite Nat.sub_diag in H2. subst. reflexivity.
+        * right. split; [lia|]. replace (j - a0) with (S (j - S a0)) in H2 by lia. exact H2.
+  Qed.
+
   Lemma covers_spec : forall j k, covers ms j k = true <-> inr (nth j ms (0,0)) k.
   Proof.
     intros. unfold covers, inr. rewrite andb_true_iff, Nat.leb_le, Nat.ltb_lt. tauto.
@@ -163,12 +177,20 @@ Section Axis.
   Proof.
     intros k j. destruct (Nat.lt_ge_cases k ns) as [Hk|Hk].
     - unfold sf, supported_functions.
-      set (g := fun k0 => let js := filter (fun j0 => covers ms j0 k0) (seq 0 (length ms)) in
+      set (g := fun k0 => let js := map fst (filter (fun jr => covers_r (snd jr) k0) (combine (seq 0 (length ms)) ms)) in
                          (fold_right Nat.min n js, S (fold_right Nat.max 0 js))).
-      rewrite (nth_map_seq _ g (0,0) ns k Hk). unfold g. rewrite ms_length.
-      set (js := filter (fun j0 => covers ms j0 k) (seq 0 n)).
+      rewrite (nth_map_seq _ g (0,0) ns k Hk). unfold g.
+      set (js := map fst (filter (fun jr => covers_r (snd jr) k) (combine (seq 0 (length ms)) ms))).
       assert (Hjs : forall x, In x js <-> x < n /\ inr (nth x ms (0,0)) k).
-      { intros x. unfold js. rewrite filter_In, in_seq, covers_spec. intuition lia. }
+      { intros x. unfold js. rewrite in_map_iff. split.
+        - intros [[j0 r] [E Hin]]. simpl in E. subst j0. apply filter_In in Hin. destruct Hin as [Hc Hcov].
+          apply In_combine_seq in Hc. destruct Hc as [Hr1 Hr2]. rewrite ms_length in Hr1. rewrite Nat.sub_0_r in Hr2.
+          split; [lia|]. rewrite Hr2. simpl in Hcov. unfold covers_r in Hcov.
+          apply andb_true_iff in Hcov. destruct Hcov as [H1 H2]. apply Nat.leb_le in H1. apply Nat.ltb_lt in H2.
+          unfold inr. lia.
+        - intros [Hx Hin]. exists (x, nth x ms (0,0)). split; [reflexivity|]. apply filter_In. split.
+          + apply In_combine_seq. rewrite ms_length, Nat.sub_0_r. split; [lia | reflexivity].
+          + simpl. unfold covers_r, inr in *. apply andb_true_iff. split; [apply Nat.leb_le | apply Nat.ltb_lt]; lia. }
       unfold inr at 1. simpl. split.
       + intros [Hlo Hhi].
         assert (Hne : js <> []).
